@@ -50,6 +50,13 @@ type schedRes struct {
 	Y        []schedStepRes `json:"y"`
 	Pre      []schedStepRes `json:"pre"`
 	Post     []schedStepRes `json:"post"`
+	// second hold (see sim.SchedArgs)
+	AuxPaused   bool     `json:"auxPaused"`
+	AuxPausedAt string   `json:"auxPausedAt"`
+	AuxPoints   int64    `json:"auxPoints"`
+	AuxLabels   []string `json:"auxLabels"`
+	XHung       bool     `json:"xHung"`
+	YHung       bool     `json:"yHung"`
 }
 
 var c11Writers = []string{"W1 ingest,flush", "W2 ingest,flush,rotate", "W3 ingest,size-rotation", "W4 rotate", "W5 other-index ingest,flush,rotate"}
